@@ -118,7 +118,7 @@ def plan(pid: str, tier: str, seed: int) -> dict:
     if pid == "C01":
         progs = core + [PR.by_name(n) for n in (("before1", "after1", "siblingfail") if quick else SYN)] + ([] if quick else extra)
         return dict(
-            progs=progs, props=["C01_SameOutcome", "C01_ExecBound", "C01_NothingStranded"],
+            progs=progs, props=["C01_SameOutcome", "C01_ExecBound", "C01_NothingStranded", "C01_SameData"],
             jobs=lambda refs: [
                 {"kind": "crash", "prog": p, "points": pts, "sweeps": 1}
                 for p in progs for pts in chunks(range(1, refs[p["name"]]["commits"] + 1), 24)
@@ -143,7 +143,7 @@ def plan(pid: str, tier: str, seed: int) -> dict:
         progs = core + extra + [PR.by_name(n) for n in SYN]
         nseed = 24 if quick else 400
         return dict(
-            progs=progs, props=["C02_SameOutcome", "C02_StartOnce", "C02_NoReexec", "C02_ExecExact"],
+            progs=progs, props=["C02_SameOutcome", "C02_StartOnce", "C02_NoReexec", "C02_ExecExact", "C01_SameData"],
             jobs=lambda refs: [{"kind": "schedule", "prog": p, "seeds": s, "opts": {"p_withhold": 0.2}}
                                for p in progs for s in chunks(range(seed * 1000, seed * 1000 + nseed), 12)],
             mc=[(n, {"AnyOrder": "TRUE", "MaxWithhold": 1}, {}) for n in ("chain2", "diamond", "selfloop", "failbranch")]
@@ -486,4 +486,4 @@ def run(pid: str, tier: str, seed: int) -> int:
     return rc
 
 
-ACTIONS = {"C02_NoReexec", "C03_StartsOnlyWhenAllowed", "C03_ExecOnlyStarted", "C03_NoRunBelowHalt", "C06_Legal", "C06_CompletedIsFinal", "C14_ProgressKept", "C14_ProgressExact", "C15_RearmExact", "C17_NoStartAfterCancel", "C11_ClaimsOfLiveKept", "C18_StaysSuspended", "C18_TransientNoEffect"}
+ACTIONS = {"C01_SameData", "C02_NoReexec", "C03_StartsOnlyWhenAllowed", "C03_ExecOnlyStarted", "C03_NoRunBelowHalt", "C06_Legal", "C06_CompletedIsFinal", "C14_ProgressKept", "C14_ProgressExact", "C15_RearmExact", "C17_NoStartAfterCancel", "C11_ClaimsOfLiveKept", "C18_StaysSuspended", "C18_TransientNoEffect"}
